@@ -104,6 +104,11 @@ def core_candidates():
             for ts in (SUBSETS[0], SUBSETS[3]):
                 out.append((sh, [(idx, a, o)], ts, "attr"))
             out.append((sh, [(idx, a, o)], SUBSETS[0], "derive"))
+    # explicit bound() at the type level together with own / inherited keys and by
+    for sh, idx in (("s_hashbound", 1), ("e_hashbound", 1), ("s_hashbound", 2)):
+        out.append((sh, [], ["Hash"], "attr"))
+        for (a, o) in single:
+            out.append((sh, [(idx, a, o)], SUBSETS[0] if a == "hash" else SUBSETS[3], "attr"))
     pairs = [(("hash", ("key",)), ("eq", ("key",))), (("eq", ("key",)), ("ord", ("key",))), (("hash", ("by",)), ("eq", ("key",))),
              (("hash", ("key",)), ("ord", ("key",))), (("hash", ("by",)), ("ord", ("by",))), (("hash", ("key",)), ("eq", ("by",))),
              (("hash", ("ignore",)), ("eq", ("key",))), (("eq", ("by",)), ("hash", ("key",))), (("hash", ("by",)), ("ord", ("reverse", "key"))),
